@@ -34,3 +34,10 @@ def mat_store(ex, st, m, idx, v, node):
 def transpose(v):
     i, j = z3.Int(ty.fresh_name("ti")), z3.Int(ty.fresh_name("tj"))
     return ty.MatV(z3.Lambda([i], z3.Lambda([j], v.at(j, i))), v.cols, v.rows)
+
+
+def np_array(ex, st, args, kwargs, node):
+    v = args[0]
+    if isinstance(v, (ty.SeqV, ty.MatV)):
+        return _out(v, st)
+    raise _U(f"np.array of {v!r}", node)
